@@ -1,0 +1,138 @@
+//! Verification hooks (compiled only with `--cfg era_consensus_verif`).
+//! Thin public wrappers around the crate-private replica state machine, used by the
+//! model-checking harness in /verif. No logic of their own.
+#![allow(missing_docs, unreachable_pub, clippy::missing_docs_in_private_items)]
+use std::{
+    collections::{BTreeMap, HashMap},
+    sync::Arc,
+};
+
+use zksync_concurrency::{ctx, sync};
+use zksync_consensus_roles::validator;
+
+use crate::{
+    v2_chonky_bft::{self, StateMachine},
+    Config, FromNetworkMessage, ToNetworkMessage,
+};
+
+/// The volatile state of a replica.
+#[derive(Clone, Debug, PartialEq, Eq)]
+pub struct Snapshot {
+    pub view_number: validator::ViewNumber,
+    pub phase: validator::v2::Phase,
+    pub high_vote: Option<validator::v2::ReplicaCommit>,
+    pub high_commit_qc: Option<validator::v2::CommitQC>,
+    pub high_timeout_qc: Option<validator::v2::TimeoutQC>,
+    /// `block_proposal_cache`, payloads sorted by hash.
+    pub proposals: BTreeMap<validator::BlockNumber, Vec<validator::Payload>>,
+    pub commit_views_cache: BTreeMap<validator::PublicKey, validator::ViewNumber>,
+    pub commit_qcs_cache: BTreeMap<validator::ViewNumber, BTreeMap<validator::v2::ReplicaCommit, validator::v2::CommitQC>>,
+    pub timeout_views_cache: BTreeMap<validator::PublicKey, validator::ViewNumber>,
+    pub timeout_qcs_cache: BTreeMap<validator::ViewNumber, validator::v2::TimeoutQC>,
+}
+
+/// A real `StateMachine` together with the far ends of its channels.
+pub struct Replica {
+    sm: StateMachine,
+    outbound: ctx::channel::UnboundedReceiver<ToNetworkMessage>,
+    proposer: sync::watch::Receiver<Option<validator::v2::ProposalJustification>>,
+    _inbound: sync::prunable_mpsc::Sender<FromNetworkMessage>,
+}
+
+impl Replica {
+    /// `StateMachine::start` (restores the persisted state from the engine).
+    pub async fn start(ctx: &ctx::Ctx, cfg: Arc<Config>) -> ctx::Result<Self> {
+        let (out_send, out_recv) = ctx::channel::unbounded();
+        let (in_send, in_recv) = crate::create_input_channel();
+        let (p_send, p_recv) = sync::watch::channel(None);
+        let sm = StateMachine::start(ctx, cfg, out_send, in_recv, p_send).await?;
+        Ok(Self { sm, outbound: out_recv, proposer: p_recv, _inbound: in_send })
+    }
+
+    pub fn snapshot(&self) -> Snapshot {
+        let s = &self.sm;
+        Snapshot {
+            view_number: s.view_number,
+            phase: s.phase,
+            high_vote: s.high_vote.clone(),
+            high_commit_qc: s.high_commit_qc.clone(),
+            high_timeout_qc: s.high_timeout_qc.clone(),
+            proposals: s
+                .block_proposal_cache
+                .iter()
+                .map(|(n, m)| {
+                    let mut v: Vec<_> = m.values().cloned().collect();
+                    v.sort_by_key(|p| p.hash());
+                    (*n, v)
+                })
+                .collect(),
+            commit_views_cache: s.commit_views_cache.clone(),
+            commit_qcs_cache: s.commit_qcs_cache.clone(),
+            timeout_views_cache: s.timeout_views_cache.clone(),
+            timeout_qcs_cache: s.timeout_qcs_cache.clone(),
+        }
+    }
+
+    pub fn restore(&mut self, x: Snapshot) {
+        let s = &mut self.sm;
+        s.view_number = x.view_number;
+        s.phase = x.phase;
+        s.high_vote = x.high_vote;
+        s.high_commit_qc = x.high_commit_qc;
+        s.high_timeout_qc = x.high_timeout_qc;
+        s.block_proposal_cache = x.proposals.into_iter().map(|(n, v)| (n, v.into_iter().map(|p| (p.hash(), p)).collect::<HashMap<_, _>>())).collect();
+        s.commit_views_cache = x.commit_views_cache;
+        s.commit_qcs_cache = x.commit_qcs_cache;
+        s.timeout_views_cache = x.timeout_views_cache;
+        s.timeout_qcs_cache = x.timeout_qcs_cache;
+    }
+
+    /// Dispatches one message to the handler `StateMachine::run` would call.
+    /// `Err` carries the error rendered with `{:?}` (variant name first).
+    pub async fn handle(&mut self, ctx: &ctx::Ctx, msg: validator::Signed<validator::ConsensusMsg>) -> Result<(), String> {
+        #[allow(irrefutable_let_patterns)]
+        let validator::ConsensusMsg::V2(m) = &msg.msg
+        else {
+            return Err("OtherVersion".into());
+        };
+        match m {
+            validator::v2::ChonkyMsg::LeaderProposal(_) => self.sm.on_proposal(ctx, msg.cast().unwrap()).await.map_err(|e| format!("{e:?}")),
+            validator::v2::ChonkyMsg::ReplicaCommit(_) => self.sm.on_commit(ctx, msg.cast().unwrap()).await.map_err(|e| format!("{e:?}")),
+            validator::v2::ChonkyMsg::ReplicaTimeout(_) => self.sm.on_timeout(ctx, msg.cast().unwrap()).await.map_err(|e| format!("{e:?}")),
+            validator::v2::ChonkyMsg::ReplicaNewView(_) => self.sm.on_new_view(ctx, msg.cast().unwrap()).await.map_err(|e| format!("{e:?}")),
+        }
+    }
+
+    /// `StateMachine::start_timeout` (what `run` does when the view timer fires, and at start-up in view 0).
+    pub async fn fire_timeout(&mut self, ctx: &ctx::Ctx) -> Result<(), String> {
+        self.sm.start_timeout(ctx).await.map_err(|e| format!("{e:?}"))
+    }
+
+    /// Everything sent to the network so far.
+    pub fn drain_outbound(&mut self) -> Vec<validator::Signed<validator::ConsensusMsg>> {
+        let mut v = vec![];
+        while let Some(m) = self.outbound.try_recv() {
+            v.push(m.message);
+        }
+        v
+    }
+
+    /// The justification most recently handed to the proposer task, if it changed.
+    pub fn published_justification(&mut self) -> Option<validator::v2::ProposalJustification> {
+        if self.proposer.has_changed().unwrap_or(false) {
+            self.proposer.borrow_and_update().clone()
+        } else {
+            None
+        }
+    }
+
+    /// Current view deadline is in the past (the run loop would fire the timer).
+    pub fn view_deadline(&self) -> zksync_concurrency::time::Deadline {
+        self.sm.view_timeout
+    }
+}
+
+/// `proposer::create_proposal`.
+pub async fn create_proposal(ctx: &ctx::Ctx, cfg: Arc<Config>, j: validator::v2::ProposalJustification) -> ctx::Result<validator::v2::LeaderProposal> {
+    v2_chonky_bft::proposer::create_proposal(ctx, cfg, j).await
+}
